@@ -269,6 +269,25 @@ pub fn build(repo: &Path, root: &Path, with_big: bool) -> Tree {
     bads.push(("bad/loop_a.graphql".into(), "symlink-loop"));
     fs::write(bad.join("afile"), b"x").unwrap();
     bads.push(("bad/afile/query.graphql".into(), "not-a-directory"));
+    // every regular file gets the same modification time (as after `cargo vendor`, unpacking an
+    // archive or `cp -p`): metadata never distinguishes two files of equal length
+    fn stamp(dir: &Path, t: std::time::SystemTime) {
+        if let Ok(rd) = fs::read_dir(dir) {
+            for e in rd.filter_map(|e| e.ok()) {
+                let p = e.path();
+                let Ok(md) = fs::symlink_metadata(&p) else { continue };
+                if md.file_type().is_symlink() {
+                    continue;
+                }
+                if md.is_dir() {
+                    stamp(&p, t);
+                } else if let Ok(f) = fs::OpenOptions::new().write(true).open(&p) {
+                    let _ = f.set_modified(t);
+                }
+            }
+        }
+    }
+    stamp(root, std::time::UNIX_EPOCH + std::time::Duration::from_secs(1_577_836_800));
     Tree {
         root: root.to_path_buf(),
         fixtures,
